@@ -117,7 +117,9 @@ Contract(X, a, b) ==
 
 \* collapse the sorted 0-based modes sd with reducer "sum" | "max" | "min"
 \* "halfsum": the reducer sum(v)/2 whose result the driver doubles - a reducer with non-integer values on integer data
+\* "wsum": sum_k k * v[k] - a reducer that depends on the ORDER of the selected entries (first index fastest)
 ReduceSeq(q, red) == IF red \in {"sum", "halfsum"} THEN SumSeq(q)
+                     ELSE IF red = "wsum" THEN SumSeq([k \in 1..Len(q) |-> k * q[k]])
                      ELSE IF red = "max" THEN SetMax(Range(q))
                      ELSE SetMin(Range(q))
 Collapse(X, sd, red) ==
